@@ -27,6 +27,7 @@ FAULTS = {
     "unterminated-object-reference": ["%p[E.O0 x"],
     "deeper-with-spaces": ["%div", " %p x"],
     "deeper-with-spaces-and-tab": ["%div", "\t %p x"],
+    "deeper-with-leading-space-then-tabs": ["%div", "\x01\t%p x"],
     "deeper-by-two-levels": ["%div", "\t\t%p x"],
     "deeper-by-three-levels": ["%div", "\t\t\t%p x"],
 }
@@ -166,7 +167,20 @@ def run(chk):
                     if nbad <= 3:
                         chk.violation("oracle", why, input_hex=hx(c), input_text=c.decode("utf-8", "replace")[:600])
         lcompile.correspondence(chk, t2, ("cls", "perr"))
-    return chk.finish(level="proof", level_note=LEVEL_NOTE)
+    def search():
+        # the model is the proved reference: an input it refuses and the implementation compiles is a failing input
+        for b in chk.broken:
+            if b.get("kind") == "correspondence" and "input_hex" in b:
+                c = unhx(b["input_hex"])
+                for _, ri, rm in lcompile.run_both([c]):
+                    if ri.cls == "done" and rm.cls == "done" and ri.perr == "ok" and rm.perr != "ok":
+                        return dict(kind="oracle", detail="accepted by the compiler although refused by the reference model: %r" % (compilecmp.perr_pos(rm.perr),),
+                                    input_hex=hx(c), input_text=c.decode("utf-8", "replace")[:900])
+                    if ri.cls == "done" and ri.perr != "ok" and located(c, ri.perr):
+                        return dict(kind="oracle", detail=located(c, ri.perr), input_hex=hx(c))
+        return None
+
+    return chk.finish(level="proof", level_note=LEVEL_NOTE, search_fn=search)
 
 
 def replay(r):
